@@ -50,7 +50,11 @@ def parse_smtlib(text: str):  # noqa: C901
                         pos += 1
                         continue
                     break
-            cur_expr.append(Node(''.join(literal)))
+            literal = Node(''.join(literal))
+            if cur_expr is not None:
+                cur_expr.append(literal)
+            else:
+                yield literal
 
         # Comments
         elif char == ';':
